@@ -44,6 +44,8 @@ RICH_VALUES = [
     {'__dict__': [[None, 0]]}, {'__dict__': [[1.5, 0]]},
     {'__tuple__': [1, 2]}, {'__tuple__': []}, [{'__tuple__': [1]}],
     {'a': {'__tuple__': [1, [2]]}}, 1e300, 1e-7, 'x' * 40,
+    # lone surrogates: how Python spells undecodable bytes of file names
+    '\udce9t\udce9', 'a\ud800', {'\udcff': ['\udc80']},
 ]
 
 
@@ -105,6 +107,10 @@ class Gen:
         rng = self.rng
         n = self.ri('n_paths')
         names = NAMES[:rng.randint(2, 3)]
+        if rng.random() < self.p.get('p_prefix_names', 0.12):
+            # names that are string prefixes of each other ("a" / "ab" /
+            # "a.b"): a path prefix is not a string prefix
+            names = rng.sample(['a', 'ab', 'a.b', 'a-', 'b', 'ba'], 3)
         if self.p['names']:
             names = list(self.p['names'])
             rng.shuffle(names)
@@ -595,6 +601,11 @@ class Gen:
         if r < self.p['p_cache_ops']:
             return [rng.choice([['rmcache'], ['savecache', 0],
                                 ['restorecache', 0]])]
+        if O_all and rng.random() < self.p.get('p_dir2file', 0.04):
+            # a foreign file appears where builds create a directory
+            dirs_ = sorted(set(a for o in O_all for a in ancestors(o)))
+            if dirs_:
+                return [['write', rng.choice(dirs_), self.ext_content()]]
         if O_all and rng.random() < self.p['p_tamper']:
             rel = rng.choice(O_all)
         else:
